@@ -73,6 +73,8 @@ type pgen struct {
 	noErr   bool // avoid constructs that may fail the render
 	captures int
 	rich    bool // use the extended filter pool
+	flAssigned bool
+	hasInc  bool // an includable file inc.liq exists
 }
 
 func pick[T any](r *rand.Rand, xs []T) T { return xs[r.Intn(len(xs))] }
@@ -297,9 +299,22 @@ func (g *pgen) seq(depth int, maxLen int) []any {
 				vals = []any{bs("p"), bs("q"), bs("r")}
 			}
 			out = append(out, g.withTrims(J{"t": "cycle", "group": bs(grp), "vals": vals})...)
+		case g.rich && k == 13 && g.r.Intn(3) == 0:
+			// opaque blocks: their bodies are complete tags / objects and plain text (never their own end tag)
+			name := pick(g.r, []string{"raw", "comment"})
+			out = append(out, g.withTrims(J{"t": name, "s": bs(blockBody(g.r))})...)
+		case g.rich && k == 15 && g.inLoop > 0 && g.r.Intn(3) == 0:
+			// the loop record used as a value
+			out = append(out, J{"t": "assign", "name": bs("fl"), "e": eVar("forloop")})
+			g.flAssigned = true
+		case g.rich && k == 11 && g.hasInc && g.r.Intn(2) == 0:
+			out = append(out, g.withTrims(J{"t": "include", "e": pick(g.r, []J{eLit(vStr("inc.liq")), eFilter(eLit(vStr("inc")), "append", eLit(vStr(".liq"))), eVar("incname")})})...)
 		default:
 			out = append(out, g.withTrims(nObj(g.expr(1)))...)
 		}
+	}
+	if g.rich && g.flAssigned && g.inLoop == 0 && g.r.Intn(2) == 0 {
+		out = append(out, nObj(eProp(eVar("fl"), pick(g.r, []string{"index", "last", "rindex0", "length"}))))
 	}
 	return out
 }
@@ -628,8 +643,11 @@ func padTags(r *rand.Rand, nodes []any) {
 }
 
 func genOmni(r *rand.Rand, i int) J {
-	g := &pgen{r: r, trims: r.Intn(4) == 0, budget: 14 + r.Intn(22), rich: true}
+	g := &pgen{r: r, trims: r.Intn(4) == 0, budget: 14 + r.Intn(22), rich: true, hasInc: r.Intn(4) == 0}
 	env, repr := g.richEnv()
+	if g.hasInc {
+		env = append(env, []any{bs("incname"), vStr("inc.liq")})
+	}
 	prog := g.seq(3, 6)
 	pr := newPrinter(spellFromJSON(nil))
 	if _, err := pr.Template(prog); err != nil {
@@ -639,6 +657,17 @@ func genOmni(r *rand.Rand, i int) J {
 	}
 	padTags(r, prog)
 	c := J{"kind": "render", "prog": prog, "env": env, "repeat": 2 + r.Intn(2)}
+	if g.hasInc {
+		// the included file sees the current variables; it lives next to the template, on disk or in the engine's cache
+		inc := []any{nText("("), nObj(eVar(pick(r, []string{"s", "n", "w", "x"}))), nObj(eFilter(eVar("a"), "size")), nText(")")}
+		c["path"] = bs("d/t.liq")
+		c["usedir"] = true
+		if r.Intn(2) == 0 {
+			c["files"] = []any{[]any{bs("d/inc.liq"), inc}}
+		} else {
+			c["cache"] = []any{[]any{bs("d/inc.liq"), inc}}
+		}
+	}
 	if len(repr) > 0 {
 		c["repr"] = repr
 	}
